@@ -1073,6 +1073,9 @@ def rule_chain_args(P):
                     counters.add(e["var"])
                 if e["k"] == "ldef" and e.get("op") in ("++", "--", "+=", "-="):
                     counters.add(e["var"])
+                # `for (int k=L; k; --k)`: the facts carry no event for ++/-- on a local, so a local initialised with the level parameter itself is a level counter
+                if e["k"] == "ldef" and _nz(e.get("rhs") or "") == lvp:
+                    counters.add(e["var"])
         for b in f["cfg"]["blocks"]:
             for e in b["ev"]:
                 if e["k"] != "call" or e["q"].split("::")[-1] not in ("makeRedundantsTo", "makeIdentitiesTo", "chainToLevel") or len(e.get("args") or []) < 3:
@@ -1192,4 +1195,153 @@ def rule_compare_after_store(P):
     return R
 
 
-RULES = [rule_next_level, rule_terminal_type, rule_index_kind, rule_fold_zeros, rule_card_skipped, rule_mark_once, rule_array_extent, rule_position_kind, rule_operand_unpack, rule_chain_args, rule_compare_after_store]
+def _relation_receivers(P, f):
+    """receiver texts that denote a relation forest inside f: arg2F of an operation whose constructor requires (SET, RELATION, SET), the parent forest of a rel_node"""
+    cls = f.get("cls") or ""
+    out = set()
+    if base_name(cls) in {base_name(c) for c in P.subclasses(M + "rel_node")}:
+        out.add("getParent()")
+    for c in P.match(lambda c_: c_.get("cls") == cls and c_.get("cfg") and base_name(c_["q"]).split("::")[-1] == base_name(cls).split("::")[-1]):
+        for b in c["cfg"]["blocks"]:
+            for e in b["ev"]:
+                if e["k"] == "call" and e["q"].endswith("::checkRelations") and [_nz(a) for a in e["args"]][-3:] == ["SET", "RELATION", "SET"]:
+                    out.add("arg2F")
+    return out
+
+
+SKIP_EXEMPT = {
+    "MEDDLY::rel_node_from_dd::getDiagonal": "the [i][i] entry below a skipped primed level is the child itself under both rules (identity: only entry of row i; redundant: every entry of row i)",
+}
+
+
+def rule_skip_rule_consulted(P):
+    """a relation forest may be identity-, fully- or quasi-reduced, and a level its node skips means something different in each (identity pattern,
+    complete matrix, nothing skipped).  A function that compares the level of a relation node with the level it is working at has detected a skip;
+    what it does next is right for at most one rule unless it asks the forest which rule it has.  Contradiction form (Engler): recFire, the image
+    operation, and rel_node::outgoing all ask; saturation's fillSplit did not (D22) and treated every skip as identity"""
+    R = RuleResult("level.skip-rule-consulted", "every function that reads getNodeLevel of a relation-forest node (arg2F of a SET x RELATION -> SET operation, the parent of a rel_node) also asks that same forest isIdentityReduced()/isFullyReduced(); exemptions are listed with their reason")
+    seen = set()
+    for f in sorted(P.fns.values(), key=lambda f: (f["file"], f["line"], f["inst"])):
+        if not f.get("cfg") or (f["file"], f["line"]) in seen or f["file"].startswith("../"):
+            continue
+        evs = [e for b in f["cfg"]["blocks"] for e in b["ev"] if e["k"] == "call"]
+        lv = [e for e in evs if e["q"] == M + "forest::getNodeLevel"]
+        if not lv:
+            continue
+        rel = _relation_receivers(P, f)
+        if not rel:
+            continue
+        seen.add((f["file"], f["line"]))
+        used = {_nz(e.get("recv") or "") for e in lv} & rel
+        for r in sorted(used):
+            R.functions.add(f["inst"])
+            R.paths += 1
+            iid = "%s reads %s->getNodeLevel" % (base_name(f["q"]).replace(M, ""), r)
+            asks = [e for e in evs if re.search(r"::is(Identity|Fully)Reduced$", e["q"]) and _nz(e.get("recv") or "") == r]
+            line = min(e["line"] for e in lv if _nz(e.get("recv") or "") == r)
+            if asks:
+                R.ok(iid, where(f, line))
+            elif base_name(f["q"]) in SKIP_EXEMPT:
+                R.ok(iid, where(f, line), exempt=SKIP_EXEMPT[base_name(f["q"])])
+                R.notes.append("%s exempt: %s" % (base_name(f["q"]), SKIP_EXEMPT[base_name(f["q"])]))
+            else:
+                R.fail(iid, where(f, line), Finding(R.rule, f["file"], base_name(f["q"]), "skip:" + r,
+                       "compares the level of a node of relation forest %s with the working level but never asks %s for its reduction rule: a skipped level is an identity pattern only in an identity-reduced forest, and the complete matrix in a fully-reduced one" % (r, r), line))
+    R.require_floor(5, "functions reading the level of a relation-forest node")
+    return R
+
+
+def rule_diagonal_lift(P):
+    """saturation splits the relation at level k into `common diagonal` (what every [i][i] entry shares; a node below level k) and the rest.  Handing
+    a node below level k to an operation run *at* level k together with a genuine level-k operand re-reads it through the forest's reduction rule:
+    identity-reduced gives the diagonal matrix that was meant, fully- and quasi-reduced give the matrix with that entry everywhere, so the
+    subtraction also deletes off-diagonal transitions (D22).  Operations whose operands are all child-level (the running intersection) are
+    homogeneous and commute with the lift under every rule"""
+    R = RuleResult("level.diagonal-lift", "in every function that calls rel_node::getDiagonal: a binary operation computed at a level that mixes a child-level operand (derived from getDiagonal) with a level-k operand either receives the child lifted by makeIdentitiesTo, or is governed by the true edge of isIdentityReduced()")
+    n = 0
+    seen = set()
+    for f in sorted(P.fns.values(), key=lambda f: (f["file"], f["line"], f["inst"])):
+        if not f.get("cfg") or (f["file"], f["line"]) in seen:
+            continue
+        evs = [e for b in f["cfg"]["blocks"] for e in b["ev"] if e["k"] == "call"]
+        if not any(e["q"] == M + "rel_node::getDiagonal" for e in evs):
+            continue
+        seen.add((f["file"], f["line"]))
+        g = Graph(f)
+        # parent role: edges whose node is unpacked as the relation node
+        handle = {k.ev["var"]: _nz(k.ev["rhs"]) for k in g.nodes if k.kind == "ldef" and re.fullmatch(r"\w+\.getNode\(\)", _nz(k.ev.get("rhs") or ""))}
+        REL = set()
+        for e in evs:
+            if e["q"].endswith("::buildRelNode"):
+                a = _nz(e["args"][0])
+                a = handle.get(a, a)
+                m = re.fullmatch(r"(\w+)\.getNode\(\)", a)
+                if m:
+                    REL.add(m.group(1))
+        defs = []   # (target, source text)
+        for k in g.nodes:
+            if k.kind == "ldef" and k.ev.get("rhs"):
+                defs.append((k.ev["var"], _nz(k.ev["rhs"])))
+            elif k.kind == "call" and k.ev["q"] == M + "dd_edge::set" and re.fullmatch(r"\w+", _nz(k.ev.get("recv") or "")):
+                defs.append((_nz(k.ev["recv"]), _nz(k.ev["args"][-1])))
+            elif k.kind == "call" and k.ev["q"] == M + "dd_edge::operator=" and len(k.ev["args"]) == 2 and re.fullmatch(r"\w+", _nz(k.ev["args"][0])):
+                defs.append((_nz(k.ev["args"][0]), _nz(k.ev["args"][1])))
+        sinks = [k for k in g.nodes if k.kind == "call" and k.ev["q"] == M + "binary_operation::compute" and len(k.ev["args"]) == 8]
+        D = set()
+
+        def child(t):
+            if "makeIdentitiesTo(" in t:
+                return False
+            return "getDiagonal(" in t or any(re.search(r"(?<![\w.>])%s(?!\w)" % re.escape(v), t) for v in D)
+        changed = True
+        while changed:
+            changed = False
+            for tgt, src in defs:
+                if tgt not in D and tgt not in REL and child(src):
+                    D.add(tgt)
+                    changed = True
+            for k in sinks:
+                a = [_nz(x) for x in k.ev["args"]]
+                if child(a[3]) and child(a[5]) and re.fullmatch(r"\w+", a[7]) and a[7] not in D:
+                    D.add(a[7])
+                    changed = True
+
+        def governing(k):
+            out = []
+            for c in g.nodes:
+                if c.kind != "branch" or not c.cond or len(c.succ) != 2:
+                    continue
+                arms = [i for s_, i in c.succ if k.id in g.reach([s_], avoid=lambda x, c=c: x.id == c.id)]
+                if len(arms) == 1:
+                    out.append((c.cond, arms[0]))
+            return out
+        for k in sinks:
+            a = [_nz(x) for x in k.ev["args"]]
+            n += 1
+            R.functions.add(f["inst"])
+            R.paths += 1
+            op = _nz(k.ev.get("recv") or "?")
+            kinds = ["child" if child(x) else "level" for x in (a[3], a[5])]
+            iid = "%s: %s->compute(%s; %s=%s, %s=%s)" % (base_name(f["q"]).replace(M, "")[:50], op, a[0], a[3], kinds[0], a[5], kinds[1])
+            if kinds[0] == kinds[1]:
+                # the level argument is where a quasi-reduced forest chains the result up to: a child-level result must stay at the child level
+                parent_levels = {[_nz(x) for x in s_.ev["args"]][0] for s_ in sinks if not all(child(_nz(x)) for x in (s_.ev["args"][3], s_.ev["args"][5]))}
+                if kinds[0] == "child" and a[0] in parent_levels:
+                    R.fail(iid, where(f, k.line), Finding(R.rule, f["file"], base_name(f["q"]), "chain:" + op,
+                           "both operands are entries of the level-%s node (one level down) but the operation is run at level %s, the level of the node itself: a quasi-reduced forest chains the result up to that level, so the `common diagonal` becomes a level-%s node that means `this entry everywhere`" % (a[0], a[0], a[0]), k.line))
+                else:
+                    R.ok(iid, where(f, k.line))
+                continue
+            ident = [(c, arm) for c, arm in governing(k) if re.fullmatch(r"!?\w+->isIdentityReduced\(\)", _nz(c["text"]))]
+            if any(arm == (1 if _nz(c["text"]).startswith("!") else 0) for c, arm in ident):
+                R.ok(iid, where(f, k.line), governed="isIdentityReduced()")
+                continue
+            R.fail(iid, where(f, k.line), Finding(R.rule, f["file"], base_name(f["q"]), "lift:" + op,
+                   "operation at level %s mixes the level-%s operand %s with %s, a node from below that level (derived from getDiagonal), without lifting it by makeIdentitiesTo and without being restricted to identity-reduced forests: a fully- or quasi-reduced forest reads the lower node as `this entry everywhere`, not `on the diagonal`" % (a[0], a[0], a[3] if kinds[0] == "level" else a[5], a[5] if kinds[1] == "child" else a[3]), k.line))
+    if n < 2:
+        raise AnalysisBroken("level.diagonal-lift: only %d level-k operations found in functions that read rel_node::getDiagonal, expected ≥2" % n)
+    R.require_floor(2, "level-k operations next to getDiagonal")
+    return R
+
+
+RULES = [rule_next_level, rule_terminal_type, rule_index_kind, rule_fold_zeros, rule_card_skipped, rule_mark_once, rule_array_extent, rule_position_kind, rule_operand_unpack, rule_chain_args, rule_compare_after_store, rule_skip_rule_consulted, rule_diagonal_lift]
